@@ -262,7 +262,7 @@ def reader_half(ctx):
 # ----------------------------------------------------------------------------- the check
 
 def correspondence(ctx):
-    w = W.correspondence_for(PROP, ctx, "C09 judges: Close / call watchdogs, C09_after_close on every history, and the f3 regression scenario (a blocking BalancerFunc forces batchMessages after Close: the call must return io.ErrClosedPipe and Close must return).")
+    w = W.correspondence_for(PROP, ctx, "C09 judges: Close / call watchdogs, C09_after_close on every history, the wire-level census scenarios (writers built with kafka.NewWriter on the real Transport over pipes: after Close no connPool.discover / conn.run goroutine, open connection or late request remains), and the f3 regression scenario (a blocking BalancerFunc forces batchMessages after Close: the call must return io.ErrClosedPipe and Close must return).")
     rd = reader_half(ctx)
     hist = dict(w["hist"])
     hist.update(rd["hist"])
